@@ -210,9 +210,71 @@ func (d *deferizer) walk(sels []*gen.Sel, parent string, c dctx) []*gen.Sel {
 		idx    []int
 		active bool
 		sel    *gen.Sel
+		multi  bool // every member is a composite field that is also selected (thinly) outside the fragment
 	}
 	var groups []group
 	taken := map[int]bool{}
+	wrap := func(body []*gen.Sel) (*gen.Sel, bool) {
+		dir, active := d.deferDir()
+		if d.r.IntN(3) == 0 {
+			d.fragN++
+			fr := &gen.Frag{Name: fmt.Sprintf("DF%d", d.fragN), On: parent, Sel: body}
+			d.doc.Frags = append(d.doc.Frags, fr)
+			d.doneFrag[fr.Name] = true
+			d.noteDefer(active, c, parent, parent, "fragment-spread")
+			return &gen.Sel{Spread: &gen.Spread{Name: fr.Name, Parent: parent, Dirs: []*gen.Dir{dir}}}, active
+		}
+		in := &gen.InlineFrag{Parent: parent, Sel: body, Dirs: []*gen.Dir{dir}}
+		if d.r.IntN(2) == 0 {
+			in.On = parent
+			d.shape("typed-inline")
+		} else {
+			d.shape("untyped-inline")
+		}
+		d.noteDefer(active, c, parent, in.On, "inline-fragment")
+		return &gen.Sel{Inline: in}, active
+	}
+	// 2a. one fragment over 2-3 DIFFERENT composite fields, each of which is also selected outside
+	// the fragment: the fragment's leaves are mounted below several sibling objects of the initial
+	// response and nowhere at the parent itself
+	if d.r.IntN(100) < 16 {
+		var comps []int
+		seenKey := map[string]bool{}
+		for i, x := range sels {
+			if x.Field != nil && len(x.Field.Sel) > 0 && x.Field.Def != nil && !seenKey[x.Field.Key()] {
+				seenKey[x.Field.Key()] = true
+				comps = append(comps, i)
+			}
+		}
+		if len(comps) >= 2 {
+			d.r.Shuffle(len(comps), func(i, j int) { comps[i], comps[j] = comps[j], comps[i] })
+			k := 2
+			if len(comps) >= 3 && d.r.IntN(2) == 0 {
+				k = 3
+			}
+			idx := append([]int(nil), comps[:k]...)
+			sort.Ints(idx)
+			var body []*gen.Sel
+			for _, i := range idx {
+				taken[i] = true
+				body = append(body, sels[i])
+			}
+			wrapped, active := wrap(body)
+			if active {
+				deferredHere++
+				d.shape("several-composites-of-one-defer-also-outside")
+				if c.underList {
+					d.shape("several-composites-of-one-defer-also-outside:in-list")
+				}
+				if c.depth == 0 {
+					d.shape("several-composites-of-one-defer-also-outside:at-root")
+				} else {
+					d.shape("several-composites-of-one-defer-also-outside:nested")
+				}
+			}
+			groups = append(groups, group{idx: idx, active: active, sel: wrapped, multi: true})
+		}
+	}
 	maxGroups := 1
 	if d.r.IntN(3) == 0 {
 		maxGroups = 2 + d.r.IntN(2)
@@ -243,26 +305,7 @@ func (d *deferizer) walk(sels []*gen.Sel, parent string, c dctx) []*gen.Sel {
 			taken[i] = true
 			body = append(body, sels[i])
 		}
-		dir, active := d.deferDir()
-		var wrapped *gen.Sel
-		if d.r.IntN(3) == 0 {
-			d.fragN++
-			fr := &gen.Frag{Name: fmt.Sprintf("DF%d", d.fragN), On: parent, Sel: body}
-			d.doc.Frags = append(d.doc.Frags, fr)
-			d.doneFrag[fr.Name] = true
-			wrapped = &gen.Sel{Spread: &gen.Spread{Name: fr.Name, Parent: parent, Dirs: []*gen.Dir{dir}}}
-			d.noteDefer(active, c, parent, parent, "fragment-spread")
-		} else {
-			in := &gen.InlineFrag{Parent: parent, Sel: body, Dirs: []*gen.Dir{dir}}
-			if d.r.IntN(2) == 0 {
-				in.On = parent
-				d.shape("typed-inline")
-			} else {
-				d.shape("untyped-inline")
-			}
-			wrapped = &gen.Sel{Inline: in}
-			d.noteDefer(active, c, parent, in.On, "inline-fragment")
-		}
+		wrapped, active := wrap(body)
 		if active {
 			deferredHere++
 		}
@@ -309,6 +352,21 @@ func (d *deferizer) walk(sels []*gen.Sel, parent string, c dctx) []*gen.Sel {
 		if g.idx[0] != i {
 			continue
 		}
+		if g.multi {
+			var before, after []*gen.Sel
+			for _, j := range g.idx {
+				cp := d.thinCopy(sels[j])
+				if d.r.IntN(2) == 0 {
+					before = append(before, cp)
+				} else {
+					after = append(after, cp)
+				}
+			}
+			out = append(out, before...)
+			out = append(out, g.sel)
+			out = append(out, after...)
+			continue
+		}
 		var dup *gen.Sel
 		if d.r.IntN(100) < 22 {
 			var cands []*gen.Sel
@@ -345,6 +403,24 @@ func (d *deferizer) undeferredCopy(src *gen.Sel) *gen.Sel {
 		keep := 1 + d.r.IntN(len(cp.Field.Sel)-1)
 		cp.Field.Sel = cp.Field.Sel[:keep]
 		d.shape("partial-overlap")
+	}
+	return cp
+}
+
+// thinCopy clones a composite field selection without any @defer below it and keeps only a strict
+// part of its sub-selection (a proper prefix, or just __typename), so that the original keeps
+// fields of its own below the shared object.
+func (d *deferizer) thinCopy(src *gen.Sel) *gen.Sel {
+	cp := gen.CloneSels([]*gen.Sel{src})[0]
+	stripDeferSels(cp.Field.Sel)
+	if len(cp.Field.Sel) > 1 && d.r.IntN(2) == 0 {
+		cp.Field.Sel = cp.Field.Sel[:1+d.r.IntN(len(cp.Field.Sel)-1)]
+	} else {
+		t := ""
+		if cp.Field.Def != nil {
+			t = cp.Field.Def.Type.NamedType()
+		}
+		cp.Field.Sel = []*gen.Sel{{Field: &gen.FieldSel{Name: "__typename", Parent: t}}}
 	}
 	return cp
 }
